@@ -242,17 +242,21 @@ class Check(CheckBase):
                 await asyncio.sleep(0.005)
             counters['slot_checks'] += 1
             have = sorted(repo._slots._queue)
+            expect_slots = getattr(repo, '_vf_initial_slots', list(range(2, N + 2)))
             if calm < 3:
                 viol(f'after {label} the operation\'s own tasks/threads never come to rest and nothing moves',
                      in_flight=store.in_flight, stacks=_trim(sched.stack_signature()), tasks=_task_chains())
-            elif have != list(range(2, N + 2)):
-                viol(f'connection slots after {label}: {have}, expected {list(range(2, N + 2))}',
+            elif have != expect_slots:
+                viol(f'connection slots after {label}: {have}, expected {expect_slots} (the slots the object started with)',
                      in_flight=store.in_flight, stacks=_trim(sched.stack_signature()), tasks=_task_chains())
 
         outcome = {}
 
         async def op_snapshot(fail):
             repo = await rep.unlocked(be, key, concurrent=N)
+            repo._vf_initial_slots = sorted(repo._slots._queue)
+            if len(repo._vf_initial_slots) != N:
+                viol(f'a fresh Repository(concurrent={N}) starts with {len(repo._vf_initial_slots)} connection slots')
             if fail:
                 store.faults = [{'op': fault_rng.choice(['upload_stream', 'exists', 'upload_stream']),
                                  'nth': fault_rng.randrange(0, 12), 'count': None}]
@@ -268,6 +272,7 @@ class Check(CheckBase):
 
         async def op_restore(fail, target):
             repo = await rep.unlocked(be, key, concurrent=N)
+            repo._vf_initial_slots = sorted(repo._slots._queue)
             if fail:
                 store.faults = [{'op': fault_rng.choice(['download_stream', 'download_stream', 'download']),
                                  'nth': fault_rng.randrange(0, 10), 'count': None, 'prefix': None}]
